@@ -232,7 +232,7 @@ func genC11Dup(r *prng.R, i int) Scenario {
 		sc.Ops = []Op{{Op: "run"}, {Op: "wait"}, {Op: "reload", Cb: "some", Cfg: next}, {Op: "wait"},
 			{Op: "stop"}, {Op: "wait"}, {Op: "end"}}
 	}
-	switch i % 8 {
+	switch i % 10 {
 	case 3: // old [a,b], new [a,a2]: a2 is a distinct runnable whose String() is a's (blocking Stop)
 		p := randPool(r, 3, "S", 5)
 		p[2].Name = 0
@@ -254,12 +254,23 @@ func genC11Dup(r *prng.R, i int) Scenario {
 			Op{Op: "stop"}, Op{Op: "wait"}, Op{Op: "end"})
 	case 6: // same multiset, permuted: old [a,a,b], new [a,b,a] - genuinely unchanged, in place
 		one(randPool(r, 2, "S", 5), []Entry{{0, 0}, {0, 1}, {1, 0}}, []Entry{{0, 2}, {1, 1}, {0, 3}})
-	default: // four entries over three names: old [a,a,b,c], new [a,b,b,c] / [a,b,c,c]
+	case 7: // four entries over three names: old [a,a,b,c], new [a,b,b,c] / [a,b,c,c]
 		nc := []Entry{{0, 1}, {1, 1}, {1, 2}, {2, 1}}
 		if r.Bool() {
 			nc = []Entry{{0, 1}, {1, 1}, {2, 1}, {2, 2}}
 		}
 		one(randPool(r, 3, "S", 5), []Entry{{0, 0}, {0, 1}, {1, 0}, {2, 0}}, nc)
+	case 8: // H4 of the second audit: a DIFFERENT runnable object with the same String(): old [x], new [x'] - same
+		// names, so the reload is taken in place: x' (never started, blocking Stop) gets ReloadWithConfig, x keeps running
+		p := randPool(r, 2, "S", 5)
+		p[1].Name = 0
+		p[1].Style = "U"
+		one(p, []Entry{{0, 0}}, []Entry{{1, 1}})
+	default: // ... with a bystander, and x' non-blocking: old [x,y], new [x',y]
+		p := randPool(r, 3, "S", 5)
+		p[2].Name = 0
+		p[2].Style = "N"
+		one(p, []Entry{{0, 0}, {1, 0}}, []Entry{{2, 1}, {1, 1}})
 	}
 	return sc
 }
